@@ -24,6 +24,39 @@ MUTANTS = [
     (G, "::trotter_schedule", "*((k, 0.5) for k in reversed(range(nlayers - 1))),", "*((k + 1, 0.5) for k in reversed(range(nlayers - 1))),", "expect-fail"),
     (G, "::trotter_schedule", "    if order == 4:\n", "    if order == 4 or order == 3:\n", "expect-fail"),
     (G, "::trotter_schedule", "order2 = trotter_schedule(nlayers, order=2)", "order2 = trotter_schedule(nlayers, order=1)", "expect-fail"),
+    # ---- TEBD.sweep
+    (T, "TEBD.sweep", "for i in range(start_site_ind, final_site_ind, 2):", "for i in range(start_site_ind, final_site_ind - 1, 2):", "expect-fail"),
+    (T, "TEBD.sweep", "for i in range(start_site_ind, final_site_ind, 2):", "for i in range(start_site_ind + 1, final_site_ind, 2):", "expect-fail"),
+    (T, "TEBD.sweep", "for i in reversed(range(final_site_ind, self.L - 1, 2)):", "for i in reversed(range(final_site_ind, self.L - 2, 2)):", "expect-fail"),
+    (T, "TEBD.sweep", "for i in reversed(range(final_site_ind, self.L - 1, 2)):", "for i in reversed(range(final_site_ind + 2, self.L - 1, 2)):", "expect-fail"),
+    (T, "TEBD.sweep", "if self.cyclic and (self.L % 2 == 0):", "if self.cyclic and (self.L % 2 == 1):", "expect-fail"),
+    (T, "TEBD.sweep", "            if self.L % 2 == 1:\n                self._pt.left_canonize_site(self.L - 2)\n                if self.cyclic:",
+     "            if self.L % 2 == 1:\n                self._pt.left_canonize_site(self.L - 2)\n                if False:", "expect-fail"),
+    (T, "TEBD.sweep", "if direction == self._queued_sweep[0]:", "if direction != self._queued_sweep[0]:", "expect-fail"),
+    (T, "TEBD.sweep", "self._queued_sweep[1] += dt_frac\n                    return", "self._queued_sweep[1] = dt_frac\n                    return", "expect-fail"),
+    (T, "TEBD.sweep", "direction, dt_frac = self._queued_sweep\n                    self._queued_sweep = new_queued_sweep",
+     "self._queued_sweep = new_queued_sweep", "expect-fail"),
+    (T, "TEBD.sweep", "            self._queued_sweep = None\n            self.sweep(queued_direction, queued_dt_frac, queue=False)",
+     "            self.sweep(queued_direction, queued_dt_frac, queue=False)\n            self._queued_sweep = None", "expect-fail"),
+    (T, "TEBD.sweep", "            self._queued_sweep = None\n            self.sweep(queued_direction, queued_dt_frac, queue=False)",
+     "            self._queued_sweep = None", "expect-fail"),
+    (T, "TEBD.sweep", "self.sweep(queued_direction, queued_dt_frac, queue=False)", "self.sweep(queued_direction, dt_frac, queue=False)", "expect-fail"),
+    (T, "TEBD.sweep", "dt_frac *= dt / self._dt", "dt_frac *= self._dt / dt", "expect-fail"),
+    (T, "TEBD.sweep", "                sites = (i, (i + 1) % self.L)\n                U = self._get_gate_from_ham(dt_frac, sites)\n                self._pt.left_canonize(",
+     "                sites = (i, (i + 1) % self.L)\n                U = self._get_gate_from_ham(dt_frac, (i + 1, i + 2))\n                self._pt.left_canonize(", "expect-fail"),
+    (T, "TEBD.sweep", "                sites = (i, (i + 1) % self.L)\n                U = self._get_gate_from_ham(dt_frac, sites)\n                self._pt.left_canonize(",
+     "                sites = (i, (i + 1) % self.L)\n                U = self._get_gate_from_ham(1.0, sites)\n                self._pt.left_canonize(", "expect-fail"),
+    (T, "TEBD.sweep", "self._pt.left_canonize(start=max(0, i - 1), stop=i)", "pass", "expect-fail"),
+    (T, "TEBD.sweep", "start=min(self.L - 1, i + 2), stop=i + 1", "start=min(self.L - 1, i + 2), stop=i + 2", "expect-fail"),
+    (T, "TEBD.sweep", '                self._pt.gate_split_(\n                    U, where=sites, absorb="right", **self.split_opts\n                )\n\n            if self.L % 2 == 1:',
+     '                self._pt.gate_split_(\n                    U, where=sites, absorb="left", **self.split_opts\n                )\n\n            if self.L % 2 == 1:', "expect-fail"),
+    (T, "TEBD.sweep", "            # one extra canonicalization not included in last split\n            self._pt.right_canonize_site(1)", "            pass", "expect-fail"),
+    (T, "TEBD.sweep", "                self._pt.left_canonize_site(self.L - 2)\n", "                pass\n", "expect-fail"),
+    (T, "TEBD.sweep", "            # just queue the new sweep\n            else:\n                self._queued_sweep = [direction, dt_frac]\n                return",
+     "            # just queue the new sweep\n            else:\n                self._queued_sweep = [direction, dt_frac]", "expect-fail"),
+    (T, "TEBD.sweep", "sites = (self.L - 1, 0)\n                    U = self._get_gate_from_ham(dt_frac, sites)\n                    self._pt.right_canonize_site(1)",
+     "sites = (0, self.L - 1)\n                    U = self._get_gate_from_ham(dt_frac, sites)\n                    self._pt.right_canonize_site(1)", "expect-fail"),
+    (T, "TEBD.sweep", "            start_site_ind = 0\n            final_site_ind = self.L - 1\n", "            start_site_ind = 0\n            final_site_ind = self.L - 2\n", "expect-fail"),
 ]
 
 
@@ -41,6 +74,13 @@ def run_mutant(tmp, relpath, suffix, old, new):
     if not cons:
         return "stale", f"no contract registered for {suffix}"
     base = ids(pyvc.verify(cons[0]))
+    # callee contracts live in other source files: give the scratch tree unchanged copies of every file under contract
+    import shutil
+    for tgt in list(pyvc.REGISTRY):
+        rp = tgt.split("::")[0]
+        if rp != relpath and os.path.exists(os.path.join("/repo", rp)) and not os.path.exists(os.path.join(tmp, rp)):
+            os.makedirs(os.path.dirname(os.path.join(tmp, rp)), exist_ok=True)
+            shutil.copy(os.path.join("/repo", rp), os.path.join(tmp, rp))
     dst = os.path.join(tmp, relpath)
     os.makedirs(os.path.dirname(dst), exist_ok=True)
     open(dst, "w").write(src.replace(old, new, 1))
@@ -51,7 +91,7 @@ def run_mutant(tmp, relpath, suffix, old, new):
     finally:
         pyvc.REPO = "/repo"
         pyvc._SRC_CACHE.clear()
-        os.remove(dst)
+        open(dst, "w").write(src)
     newf = sorted(ids(rep) - base)
     if newf:
         return "failed", ", ".join(x.split("::")[-1] for x in newf[:3])
